@@ -11,9 +11,13 @@ import (
 // c03Runes: characters whose code point ends in the byte of a line feed, a carriage return, a tab or a blank (U+010A,
 // U+040A, U+4E0A, U+270A, U+1F60A; U+010D, U+4E0D; U+0109, U+0120, U+4E20 ...), consumed whole (a literal, a negated
 // literal, a back-reference, a multi-byte range, a negated list with a multi-byte item, whole file) and merely
-// skipped by the scan: they are characters, not line ends - the lines of every later match stay those of the text.
+// skipped by the scan, and the characters other grammars treat as line terminators (U+2028, U+2029, U+0085, VT, FF,
+// the information separators): they are characters, not line ends - the lines of every later match stay those of the text.
 func c03Runes(r *drv.Run) {
-	special := []string{"Ċ", "Њ", "上", "✊", "😊", "č", "不", "ĉ", "Ġ", "丠", "ఊ"}
+	special := []string{"Ċ", "Њ", "上", "✊", "😊", "č", "不", "ĉ", "Ġ", "丠", "ఊ",
+		// what OTHER grammars call a line terminator or a line break: LINE SEPARATOR, PARAGRAPH SEPARATOR, NEXT LINE,
+		// vertical tab, form feed, FILE / GROUP / RECORD SEPARATOR - here they are characters on a line
+		"\u2028", "\u2029", "\u0085", "\v", "\f", "\x1c", "\x1d", "\x1e"}
 	progs := []struct {
 		src string
 		am  gen.Amount
